@@ -221,8 +221,15 @@ func (w *world) Post(res *sim.Result) {
 	}
 	sort.Strings(keys)
 	for _, k := range keys {
+		if w.skipKey[k] {
+			continue
+		}
 		ops := byKey[k]
-		r := porcupine.CheckOperationsTimeout(linModel, ops, 20*time.Second)
+		model := linModel
+		if init, ok := w.initState[k]; ok {
+			model.Init = func() interface{} { return init }
+		}
+		r := porcupine.CheckOperationsTimeout(model, ops, 20*time.Second)
 		switch r {
 		case porcupine.Illegal:
 			var lines []string
